@@ -376,6 +376,11 @@ def _inherent(head, last, plain, c):
         return colls.option_method(last)
     if head == "Result" or plain.startswith(("std::result::Result::", "core::result::Result::")):
         return colls.result_method(last)
+    if plain.startswith("core::bool::") or head == "bool":
+        if last == "then_some":
+            return lambda I, a, fr, d: (some(I, a[1]) if I.E.branch(a[0], "then_some") else none(I))
+        if last == "then":
+            return lambda I, a, fr, d: (some(I, I.call_value(a[1], [])) if I.E.branch(a[0], "then") else none(I))
     if plain.startswith("core::num::") or re.match(r"^(u8|u16|u32|u64|usize|u128|i8|i16|i32|i64|isize|i128)::", plain):
         return colls.num_method(last, c)
     if head == "Vec" or plain.startswith("std::vec::Vec::"):
